@@ -17,6 +17,23 @@ What "decrease by the configured amount" means is NOT fixed by the statement: th
 "relative loss decreasing", the StopOnPlateau docstring example only works with the absolute reading
 (last - loss), ReduceToBason divides by the new loss.  ``relation`` therefore classifies a step only
 when the three readings agree (with a safety factor); callers generate histories on which they do.
+
+Safety factors.  ``margin=2`` is the generous default.  ``NEAR`` (1.004) is the factor used for the
+near-threshold steps (decrease = 0.99*thr resp. 1.01*thr at a loss ~ 1, where the three readings differ by
+a factor 1 +- 1.3e-3 at most): the controllers evaluate ``last - loss`` (exact for float32-representable
+losses within a factor 2 of each other, Sterbenz), one division and one comparison with ``decreasing``
+converted to the working precision - a relative error <= 3 * 2^-24 = 1.8e-7 in float32, four orders of
+magnitude below 0.4 %.  Neither docstring says whether a decrease of EXACTLY ``decreasing`` (or a loss of
+exactly ``tol``) counts, so no step is ever generated at the threshold itself.
+
+``relation_rel`` is the verdict of the two RELATIVE readings only.  It is used for ReduceToBason alone,
+whose docstring says "relative loss decreasing" in the class text and in the ``decreasing`` argument and
+contains nothing that contradicts it (StopOnPlateau's docstring example contradicts its text, so for
+StopOnPlateau every reading stays acceptable).
+
+A loss of exactly 0 (a perfect fit) is classified with IEEE semantics for x/0: last > 0 -> 0 is a decrease
+of ``last`` (absolute), 1 (relative to last), +inf (relative to new); 0 -> positive failed under every
+reading; 0 -> 0 is 0/0 under the relative readings and is never called.
 """
 import math
 
@@ -25,10 +42,20 @@ READINGS = ("abs", "rel_last", "rel_new")
 CAUSES = ("budget", "patience", "reject", "tol")
 
 
+NEAR = 1.004
+
+
+def _div(a, b):
+    """a / b with IEEE semantics for b == 0"""
+    if b != 0.0:
+        return a / b
+    return float("nan") if a == 0.0 else math.copysign(INF, a)
+
+
 def amounts(last, loss):
-    """the decrease of one step under the three readings (positive finite losses)"""
+    """the decrease of one step under the three readings (non-negative finite losses)"""
     d = last - loss
-    return (d, d / last, d / loss)
+    return (d, _div(d, last), _div(d, loss))
 
 
 def relation(last, loss, thr, margin=2.0):
@@ -39,9 +66,11 @@ def relation(last, loss, thr, margin=2.0):
     failed to decrease, 'dec'."""
     if last == INF:
         return "dec"
-    if not (0.0 < last < INF and 0.0 < loss < INF and thr > 0.0):
+    if not (0.0 <= last < INF and 0.0 <= loss < INF and thr > 0.0 and margin > 1.0):
         return None
     a = amounts(last, loss)
+    if any(x != x for x in a):
+        return None
     if min(a) >= margin * thr:
         return "dec"
     if max(a) <= thr / margin:
@@ -49,12 +78,45 @@ def relation(last, loss, thr, margin=2.0):
     return None
 
 
-def step_failed(lasts, losses, thr, margin=2.0):
+def relation_rel(last, loss, thr, margin=2.0):
+    """as `relation`, for the two relative readings (decrease / last, decrease / new) only; positive losses"""
+    if last == INF:
+        return "dec"
+    if not (0.0 < last < INF and 0.0 < loss < INF and thr > 0.0 and margin > 1.0):
+        return None
+    a = amounts(last, loss)[1:]
+    if min(a) >= margin * thr:
+        return "dec"
+    if max(a) <= thr / margin:
+        return "fail"
+    return None
+
+
+def classify(last, loss, thr, mode="agree"):
+    """mode 'agree': all three readings, factor 2;  'near': all three readings, factor NEAR;
+    'rel': the relative readings only, factor 2 (ReduceToBason)"""
+    if mode == "rel":
+        return relation_rel(last, loss, thr)
+    return relation(last, loss, thr, NEAR if mode == "near" else 2.0)
+
+
+def relation_exact(last, loss, thr, readings=READINGS):
+    """Second formulation for the self-test: exact rational arithmetic on the given doubles.  Returns the set of
+    verdicts ('dec' / 'fail' / 'at') of the requested readings and the smallest relative distance
+    |amount - thr| / thr over them (positive finite losses)."""
+    from fractions import Fraction as Fr
+    la, lo, t = Fr(last), Fr(loss), Fr(thr)
+    am = {"abs": la - lo, "rel_last": (la - lo) / la, "rel_new": (la - lo) / lo}
+    verdicts = {("dec" if am[r] > t else "fail" if am[r] < t else "at") for r in readings}
+    return verdicts, float(min(abs(am[r] - t) / t for r in readings))
+
+
+def step_failed(lasts, losses, thr, mode="agree"):
     """Did this step fail to decrease the (batched) loss?  Docstring of ReduceToBason.step: "all losses
     in the batch has to satisfy the condition to stop a loop" -- the step counts as failed when every
     element failed (equivalently: per-element counters, stop when all reached `patience`, since the run
     of all-failed steps ending now is the minimum of the per-element runs).  True / False / None."""
-    rel = [relation(a, b, thr, margin) for a, b in zip(lasts, losses)]
+    rel = [classify(a, b, thr, mode) for a, b in zip(lasts, losses)]
     if any(r == "dec" for r in rel):
         return False
     if all(r == "fail" for r in rel):
